@@ -529,28 +529,48 @@ _JOBS = None
 _CTXINFO = None
 
 
+class _JobTimeout(Exception):
+    pass
+
+
+def _alarm(signum, frame):
+    raise _JobTimeout()
+
+
 def _worker(idx):
+    """One job.  An exception or a hang while building or driving the (possibly changed) implementation is not a
+    crash of the check: it comes back as a disagreement of that instance."""
     import random
+    import signal
+    import traceback
     import explore
     from runner import Coverage
     from leanproc import LeanDriver
     prop, seed, tier = _CTXINFO
     job = _JOBS[idx]
     cov = Coverage()
-    lean = LeanDriver(prop)
+    lean = None
+    name = "job %d" % idx
+    dis = []
+    budget = int(job.kw.get("deadline_s", 40 if tier == "quick" else 400) * 2 + 30)
+    # CPU-time budget (user + system time of this worker): a busy hang is caught, a loaded machine is not mistaken
+    # for one
+    old = signal.signal(signal.SIGPROF, _alarm)
+    signal.setitimer(signal.ITIMER_PROF, budget)
     try:
+        lean = LeanDriver(prop)
         inst = job.make()
+        name = getattr(inst, "name", name) if not isinstance(inst, str) else name
         rng = random.Random(seed * 7919 + idx)
         kw = dict(job.kw)
         if "deadline_s" in kw:
             kw["deadline"] = time.time() + kw.pop("deadline_s")
         if isinstance(inst, str):
             cov.notes.append("not covered: " + inst)
-            dis = []
         elif job.mode == "A":
             dis = coexplore(inst, lean, cov, **kw)
         elif job.mode == "B":
-            dis = cosim(inst, lean, cov, rng, **job.kw)
+            dis = cosim(inst, lean, cov, rng, **kw)
         elif job.mode == "R":
             dis = route_pairs(inst, lean, cov, **kw)
         elif job.mode == "AP":
@@ -561,10 +581,22 @@ def _worker(idx):
             dis = explore.coexplore(inst, lean, cov, **job.kw)
         else:
             dis = explore.cosim(inst, lean, cov, rng, **job.kw)
+        res = [(d.trace, d.cycle, d.impl_outs, d.model_outs, d.kind, d.inst_name, d.lean_open) for d in dis]
+    except _JobTimeout:
+        res = [([], 0, None, None, "hang: instance did not finish within %d s of CPU time (build, settle or exploration loop)" % budget,
+                name, None)]
+    except Exception as e:      # noqa: BLE001 - anything the changed implementation throws at us
+        res = [([], 0, None, None, "exception while building/driving the instance: %r | %s" % (
+            e, traceback.format_exc().strip().splitlines()[-3:]), name, None)]
     finally:
-        lean.quit()
-    return idx, cov.__dict__, [(d.trace, d.cycle, d.impl_outs, d.model_outs, d.kind, d.inst_name, d.lean_open)
-                               for d in dis]
+        signal.setitimer(signal.ITIMER_PROF, 0)
+        signal.signal(signal.SIGPROF, old)
+        if lean is not None:
+            try:
+                lean.quit()
+            except Exception:
+                pass
+    return idx, cov.__dict__, res
 
 
 def run_jobs(ctx, jobs):
@@ -768,7 +800,16 @@ class RouteInst:
         self.n = inner.n
         self.view = RouteView(kind, inner.n)
         self.name, self.lean_open, self.netlist, self.qual = inner.name, inner.lean_open, inner.netlist, inner.qual
-        self.alphabet = inner.alphabet
+        # selector values from the constructor argument n (every value of a ceil(log2 n)-bit selector, i.e. also
+        # those that select nothing), not from the width of the implementation's `sel` signal
+        self.nsel = 1 << max(1, (inner.n - 1).bit_length())
+        alpha = list(inner.alphabet)
+        have = set(l[0] for l in alpha)
+        base = [l for l in alpha if l[0] == 0]
+        for sv in range(self.nsel):
+            if sv not in have:
+                alpha += [(sv,) + tuple(l[1:]) for l in base]
+        self.alphabet = alpha
         self._last = None
 
     def apply(self, letter):
@@ -785,6 +826,8 @@ class RouteInst:
 
     def gen(self, rng, t):
         l = list(self.inner.gen(rng, t))
+        if rng.random() < 0.3:
+            l[0] = rng.randrange(self.nsel)
         if self._last is not None and rng.random() < 0.8:
             pl, po = self._last
             sp, op = self.view.pending(pl, po)
@@ -1075,6 +1118,28 @@ class ArbiterView(PView):
         return {"handshake": self.k_hs, "delivery": self.k_del}
 
 
+def arbiter_fairness(inst, snap, slack=2):
+    """Every port makes progress: all masters offer single-beat packets (last = 1), the slave is ready; each master
+    must be served within n cycles (round robin).  Returns (worst wait, failing letters|None, msg|None)."""
+    v = inst.view
+    n = inst.netlist
+    letter = tuple(x for _ in range(v.n) for x in (1, v.dvals[-1], 1)) + (1,)
+    n.restore(snap)
+    served = {}
+    letters = []
+    for t in range(v.n + slack):
+        outs = impl_step(inst, letter)
+        letters.append(letter)
+        for k, r in enumerate(v.sink_ready(outs)):
+            if r and k not in served:
+                served[k] = t + 1
+        if len(served) == v.n:
+            return max(served.values()), None, None
+    missing = [k for k in range(v.n) if k not in served]
+    return v.n + slack, letters, ("masters %r not served in %d cycles although every master offers single-beat packets "
+                                  "and the slave is ready (starvation)" % (missing, v.n + slack))
+
+
 class DispatcherView(PView):
     """letter = (valid, data, last, sel, slave_k.ready...); outs = [master.ready, (valid, data, last) per slave].
     Cooperative: the master offers, every slave is ready, `sel` is anything (also a value that addresses no slave:
@@ -1131,11 +1196,30 @@ class PortMonitor:
         self.env = view.env0()
         self.run = {"handshake": 0, "delivery": 0}
         self.checks = 0
+        self.wait = None
+
+    def _fair(self, letter, outs):
+        """Arbiter: while every master offers a last beat and the slave is ready, nobody waits longer than n."""
+        v = self.v
+        sk = v.sinks(letter)
+        if not (v.source_ready(letter)[0] and all(s[0] and s[2] for s in sk)):
+            self.wait = None
+            return None
+        if self.wait is None:
+            self.wait = [0] * v.n
+        for k, r in enumerate(v.sink_ready(outs)):
+            self.wait[k] = 0 if r else self.wait[k] + 1
+            if self.wait[k] >= v.n + self.slack:
+                return "master %d not served in %d cycles although every master offers single-beat packets" % (
+                    k, self.wait[k])
+        return None
 
     def observe(self, letter, outs):
         v = self.v
         msg = None
-        if self.prev is not None:
+        if v.kind == "arbiter":
+            msg = self._fair(letter, outs)
+        if msg is None and self.prev is not None:
             sp, op, cp = self.prev
             if not v.obeys(sp, cp, letter):
                 self.armed = False
@@ -1255,6 +1339,7 @@ def coexplore_ports(inst, lean, cov, max_states=100000, deadline=None):
     transitions = nontriv = checks = 0
     watched = set()
     maxgap = {"handshake": 0, "delivery": 0}
+    maxfair = 0
     out = []
     exhaustive = True
     while frontier and len(out) < 6:
@@ -1270,6 +1355,11 @@ def coexplore_ports(inst, lean, cov, max_states=100000, deadline=None):
                 worst, wl, wmsg, mode = port_gaps(inst, snap, env)
                 for k in maxgap:
                     maxgap[k] = max(maxgap[k], worst[k])
+                if not wmsg and v.kind == "arbiter":
+                    fw, wl, wmsg = arbiter_fairness(inst, snap)
+                    maxfair = max(maxfair, fw)
+                    if not wmsg and fw > v.n:
+                        wmsg, wl = "a master waited %d cycles, round-robin bound is %d" % (fw, v.n), []
                 if wmsg:
                     tr = path_to(seen, st) + wl
                     out.append(Disagreement(inst, tr, len(tr) - 1, None, None, kind="monitor:" + wmsg))
@@ -1324,6 +1414,8 @@ def coexplore_ports(inst, lean, cov, max_states=100000, deadline=None):
                               "stability_checks": checks,
                               "max_coop_cycles_to_handshake": maxgap["handshake"], "K_declared": b["handshake"],
                               "max_coop_cycles_to_delivery": maxgap["delivery"], "K_delivery_declared": b["delivery"]})
+    if v.kind == "arbiter":
+        cov.instances[-1].update({"max_wait_of_a_master_all_offering": maxfair, "round_robin_bound": v.n})
     cov.hist["stability_checks"] = cov.hist.get("stability_checks", 0) + checks
     cov.hist["watchdog_states"] = cov.hist.get("watchdog_states", 0) + len(watched)
     return out
@@ -1350,6 +1442,10 @@ def cosim_ports(inst, lean, cov, rng, cycles, runs=1, watch_every=8):
                 here = n.snapshot()
                 saved = (inst.inner.last_letter, inst.inner.last_outs, inst._pend)
                 worst, wl, wmsg, mode = port_gaps(inst, here, mon.env, budget=60)
+                if not wmsg and v.kind == "arbiter":
+                    fw, wl, wmsg = arbiter_fairness(inst, here)
+                    if not wmsg and fw > v.n:
+                        wmsg, wl = "a master waited %d cycles, round-robin bound is %d" % (fw, v.n), []
                 n.restore(here)
                 inst.inner.last_letter, inst.inner.last_outs, inst._pend = saved
                 watched += 1
@@ -1392,3 +1488,247 @@ def cosim_ports(inst, lean, cov, rng, cycles, runs=1, watch_every=8):
             break
     n.restore(root)
     return out
+
+
+# ---------------------------------------------------------------------------------------------------------
+# Self-contained constructors for the packet.py instances (port orders of lean/LitexModel/Packet/Num.lean).
+# Every value range below comes from the constructor arguments, never from the width of an implementation signal.
+
+def pk_regime(rng, t, period=64):
+    k = (t // period) % 6
+    return (0.5, 0.9, 0.15, 1.0, 0.5, 1.0)[k], (0.5, 0.15, 0.9, 1.0, 0.2, 0.5)[k]
+
+
+class BeatSource:
+    """One packet producer keeping the stream contract: the offered beat is held until accepted; it may pause
+    between beats; packets have min_len..max_len beats; `extra(rng)` draws per-packet values (params/header)."""
+
+    def __init__(self, dwid, min_len, max_len, extra=None, data_values=None):
+        self.dwid, self.min_len, self.max_len, self.extra, self.data_values = dwid, min_len, max_len, extra, data_values
+        self.reset()
+
+    def reset(self):
+        self.queue, self.cur = [], None
+
+    def next(self, rng, pv, accepted_prev):
+        """-> (valid, data, last, extra tuple)"""
+        if self.cur is not None and accepted_prev:
+            self.cur = None
+        if self.cur is None and rng.random() < pv:
+            if not self.queue:
+                n = rng.randint(self.min_len, self.max_len)
+                ex = tuple(self.extra(rng)) if self.extra else ()
+                for k in range(n):
+                    d = rng.choice(self.data_values) if self.data_values else rng.randint(0, (1 << self.dwid) - 1)
+                    self.queue.append((d, int(k == n - 1), ex))
+            self.cur = self.queue.pop(0)
+        if self.cur is not None:
+            return (1,) + self.cur
+        ex = tuple(self.extra(rng)) if self.extra else ()
+        return (0, rng.randint(0, (1 << self.dwid) - 1), rng.randint(0, 1), ex)      # garbage while idle
+
+
+class PkInst:
+    def __init__(self, name, module, lean_open, ins, outs, qual, alphabet, stim):
+        from netlist import Netlist
+        self.name, self.module, self.lean_open = name, module, lean_open
+        self.netlist = Netlist(module)
+        self.in_sigs, self.out_sigs, self.qual = list(ins), list(outs), list(qual)
+        self.alphabet = alphabet or []
+        self.stim = stim                  # stim(rng, t, prev) -> letter; prev = (letter, outs) of the last cycle
+        self.last_letter = self.last_outs = None
+
+    def apply(self, letter):
+        n = self.netlist
+        for s, v in zip(self.in_sigs, letter):
+            n.set(s, v)
+        n.settle()
+        self.last_letter = letter
+
+    def sample(self):
+        self.last_outs = [self.netlist.getu(s) for s in self.out_sigs]
+        return self.last_outs
+
+    def gen(self, rng, t):
+        prev = None if t == 0 else (self.last_letter, self.last_outs)
+        return self.stim(rng, t, prev)
+
+
+def pk_arbiter(name, n, dwid=1, data_values=(0, 1), alphabet=True, max_len=4):
+    import itertools
+    from migen import Module
+    from litex.soc.interconnect import stream, packet
+    desc = stream.EndpointDescription([("data", dwid)])
+    masters = [stream.Endpoint(desc) for _ in range(n)]
+    slave = stream.Endpoint(desc)
+
+    class DUT(Module):
+        def __init__(self):
+            self.submodules.arb = packet.Arbiter(list(masters), slave)
+    m = DUT()
+    ins = [x for ep in masters for x in (ep.valid, ep.data, ep.last)] + [slave.ready]
+    outs = [ep.ready for ep in masters] + [slave.valid, slave.data, slave.last, m.arb.grant]
+    letters = []
+    if alphabet:
+        per = [(v, d, l) for v in (0, 1) for d in data_values for l in (0, 1)]
+        for combo in itertools.product(per, repeat=n):
+            for r in (0, 1):
+                letters.append(tuple(x for c in combo for x in c) + (r,))
+    srcs = [BeatSource(dwid, 1, max_len) for _ in range(n)]
+
+    def stim(rng, t, prev):
+        if t == 0:
+            for s in srcs:
+                s.reset()
+        pv, pr = pk_regime(rng, t)
+        l = []
+        for k, s in enumerate(srcs):
+            acc = bool(prev and prev[0][3 * k] and prev[1][k])
+            l += list(s.next(rng, pv * (0.4 + 0.6 * ((t // 200 + k) % 2)), acc)[:3])
+        return tuple(l) + (int(rng.random() < pr),)
+    return PkInst(name, m, "arbiter %d" % n, ins, outs, [None] * n + [None, n, n, None], letters, stim)
+
+
+def pk_dispatcher(name, m_slaves, one_hot=False, dwid=1, data_values=(0, 1), alphabet=True, max_len=4):
+    import itertools
+    from migen import Module
+    from litex.soc.interconnect import stream, packet
+    desc = stream.EndpointDescription([("data", dwid)])
+    master = stream.Endpoint(desc)
+    slaves = [stream.Endpoint(desc) for _ in range(m_slaves)]
+
+    class DUT(Module):
+        def __init__(self):
+            self.submodules.disp = packet.Dispatcher(master, list(slaves), one_hot=one_hot)
+    m = DUT()
+    # binary: every value of a ceil(log2 m)-bit selector (also those addressing no slave); one-hot: every m-bit
+    # pattern (none or several bits set address no slave) -- from the constructor arguments
+    nsel = (1 << m_slaves) if one_hot else (1 << max(1, (m_slaves - 1).bit_length()))
+    ins = [master.valid, master.data, master.last, m.disp.sel] + [ep.ready for ep in slaves]
+    outs, qual = [master.ready], [None]
+    for k, ep in enumerate(slaves):
+        outs += [ep.valid, ep.data, ep.last]
+        qual += [None, 1 + 3 * k, 1 + 3 * k]
+    letters = []
+    if alphabet:
+        for v in (0, 1):
+            for d in data_values:
+                for l in (0, 1):
+                    for sv in range(nsel):
+                        for rs in itertools.product((0, 1), repeat=m_slaves):
+                            letters.append((v, d, l, sv) + rs)
+    src = BeatSource(dwid, 1, max_len)
+    state = {"sel": 0}
+
+    def stim(rng, t, prev):
+        if t == 0:
+            src.reset()
+            state["sel"] = 0
+        pv, pr = pk_regime(rng, t)
+        acc = bool(prev and prev[0][0] and prev[1][0])
+        v, d, l, _ = src.next(rng, pv, acc)
+        if rng.random() < 0.3:               # the selector moves at any time (held by the wrapper while a token waits)
+            state["sel"] = (1 << rng.randrange(m_slaves)) if (one_hot and rng.random() < 0.7) else rng.randrange(nsel)
+        return (v, d, l, state["sel"]) + tuple(int(rng.random() < pr) for _ in range(m_slaves))
+    inst = PkInst(name, m, "dispatcher %d %d" % (m_slaves, int(one_hot)), ins, outs, qual, letters, stim)
+    inst.nsel = nsel
+    return inst
+
+
+def pk_packetfifo(name, pd, qd=None, buffered=False, dwid=1, pwid=1, alphabet=True, tokens=None):
+    from litex.soc.interconnect import stream, packet
+    layout = stream.EndpointDescription([("data", dwid)], [("p", pwid)])
+    m = packet.PacketFIFO(layout, payload_depth=pd, param_depth=qd, buffered=buffered)
+    ins = [m.sink.valid, m.sink.data, m.sink.p, m.sink.last, m.source.ready]
+    outs = [m.sink.ready, m.source.valid, m.source.data, m.source.p, m.source.first, m.source.last]
+    letters = []
+    if alphabet:
+        toks = tokens or [(d, p, l) for d in (0, 1) for p in (0, 1) for l in (0, 1)]
+        for r in (0, 1):
+            letters.append((0, 0, 0, 0, r))
+            for (d, p, l) in toks:
+                letters.append((1, d, p, l, r))
+    src = BeatSource(dwid, 1, pd, extra=lambda rng: (rng.randint(0, (1 << pwid) - 1),))     # packets <= payload_depth
+
+    def stim(rng, t, prev):
+        if t == 0:
+            src.reset()
+        pv, pr = pk_regime(rng, t)
+        acc = bool(prev and prev[0][0] and prev[1][0])
+        v, d, l, ex = src.next(rng, pv, acc)
+        return (v, d, ex[0], l, int(rng.random() < pr))
+    qdepth = (qd if qd is not None else pd) + 1
+    return PkInst(name, m, "packetfifo%s %d %d" % ("_buffered" if buffered else "", pd, qdepth), ins, outs,
+                  [None, None, 1, 1, 1, 1], letters, stim)
+
+
+def _pk_header(fields, H, swap):
+    from litex.soc.interconnect import packet
+    names = sorted(fields)
+    table = [tuple(fields[k]) for k in names]
+    hdr = packet.Header({k: packet.HeaderField(*fields[k]) for k in names}, H, swap_field_bytes=bool(swap))
+    args = "%d %d %s" % (int(bool(swap)), len(table), " ".join("%d %d %d" % f for f in table))
+    return names, table, hdr, args
+
+
+def pk_packetizer(name, B, H, fields, swap, data_values=None, hdr_values=None, alphabet=True, max_len=8):
+    from litex.soc.interconnect import stream, packet
+    assert H % B == 0 and H >= B, "aligned headers only (unaligned: C16's open findings)"
+    names, table, hdr, args = _pk_header(fields, H, swap)
+    dw = 8 * B
+    m = packet.Packetizer(stream.EndpointDescription([("data", dw)], hdr.get_layout()),
+                          stream.EndpointDescription([("data", dw)]), hdr)
+    ins = [m.sink.valid, m.sink.data, m.sink.last] + [getattr(m.sink, k) for k in names] + [m.source.ready]
+    outs = [m.sink.ready, m.source.valid, m.source.data, m.source.last]
+    hmax = [(1 << w) - 1 for (_, _, w) in table]
+    letters = []
+    if alphabet:
+        for v in (0, 1):
+            for r in (0, 1):
+                for d in data_values:
+                    for l in (0, 1):
+                        for hv in hdr_values:
+                            letters.append((v, d, l) + tuple(hv) + (r,))
+    else:
+        letters_coop = [(1, (1 << dw) - 1, l) + tuple(hmax) + (1,) for l in (0, 1)]
+    src = BeatSource(dw, 1, max_len, extra=lambda rng: tuple(rng.choice((0, x, rng.randint(0, x))) for x in hmax))
+
+    def stim(rng, t, prev):
+        if t == 0:
+            src.reset()
+        pv, pr = pk_regime(rng, t)
+        acc = bool(prev and prev[0][0] and prev[1][0])
+        v, d, l, ex = src.next(rng, pv, acc)
+        return (v, d, l) + tuple(ex) + (int(rng.random() < pr),)
+    inst = PkInst(name, m, "packetizer %d %d %s" % (B, H, args), ins, outs, [None, None, 1, 1], letters, stim)
+    inst.coop_alpha = letters or letters_coop
+    return inst
+
+
+def pk_depacketizer(name, B, H, fields, swap, data_values=None, alphabet=True, max_len=None):
+    from litex.soc.interconnect import stream, packet
+    assert H % B == 0 and H >= B, "aligned headers only (unaligned: C16's open findings)"
+    names, table, hdr, args = _pk_header(fields, H, swap)
+    dw = 8 * B
+    W = H // B
+    m = packet.Depacketizer(stream.EndpointDescription([("data", dw)]),
+                            stream.EndpointDescription([("data", dw)], hdr.get_layout()), hdr)
+    ins = [m.sink.valid, m.sink.data, m.sink.last, m.source.ready]
+    outs = [m.sink.ready, m.source.valid, m.source.data, m.source.last] + [getattr(m.source, k) for k in names]
+    letters = []
+    if alphabet:
+        letters = [(v, d, l, r) for v in (0, 1) for r in (0, 1) for d in data_values for l in (0, 1)]
+    src = BeatSource(dw, W + 1, max_len or W + 7, data_values=data_values if alphabet else None)
+
+    def stim(rng, t, prev):
+        if t == 0:
+            src.reset()
+        pv, pr = pk_regime(rng, t)
+        acc = bool(prev and prev[0][0] and prev[1][0])
+        v, d, l, _ = src.next(rng, pv, acc)
+        return (v, d, l, int(rng.random() < pr))
+    inst = PkInst(name, m, "depacketizer %d %d %s" % (B, H, args), ins, outs, [None, None, 1, 1] + [1] * len(names),
+                  letters, stim)
+    inst.coop_alpha = letters or [(1, (1 << dw) - 1, l, 1) for l in (0, 1)]
+    inst.W = W
+    return inst
